@@ -623,7 +623,9 @@ func (c *clipperBase) doSplitOp(outrec *OutRec, splitOp *OutPt) {
 		prevOp.next = newOp
 	}
 
-	if !(absArea2 > 1) || !(absArea2 > absArea1 && (area2 > 0) != (area1 > 0)) {
+	// the ring has been cut at the crossing into two rings, and the winding number of every point is
+	// the sum over both: the split-off triangle may only be dropped when its area is negligible
+	if !(absArea2 > 1) {
 		return
 	}
 
